@@ -47,6 +47,9 @@ struct FnDir {
     /// `@@tail name`: the tail expression of the function is bound (`let name = <tail>;`), the
     /// `@@post` text follows, then `name` is the new tail — so that proof text can follow the result
     tail: Option<String>,
+    /// `@@allow_empty`: a positional slice (`>a` .. `<b`) with nothing between its anchors is emitted
+    /// as an EMPTY slice (so that the wrapper's contract is then checked against no code at all)
+    allow_empty: bool,
     /// E19 `@@letarg method name` + text: the single argument of the call `path.method(arg)` is
     /// let-bound in front of the call (`{ let name = arg; <text> path.method(name) }`); the receiver
     /// must be a plain path, so the evaluation order is unchanged
@@ -255,6 +258,7 @@ fn parse_template(path: &Path, nodes: &mut Vec<Node>) {
                             d.hoist_text = t;
                         }
                         "sig" => d.sig = Some(rest),
+                        "allow_empty" => d.allow_empty = true,
                         "tail" => d.tail = Some(rest),
                         "letrecv" => {
                             let mut it = rest.split_whitespace();
@@ -1664,6 +1668,7 @@ fn main() {
                     let blk = bf.found.unwrap_or_else(|| die(&format!("{ctx}: @@from / @@block anchor not found: {block_anchor}")));
                     let mut a = None;
                     let mut b = None;
+                    let mut empty_slice = false;
                     for (k, s) in blk.stmts.iter().enumerate() {
                         let r = s.span().byte_range();
                         let t = stmt_text_no_attrs(&src.text, s, r.start, r.end);
@@ -1682,6 +1687,11 @@ fn main() {
                             // `<anchor` = the statement preceding the matching one
                             if to.starts_with('<') {
                                 if k == 0 || k - 1 < a.unwrap() {
+                                    if d.allow_empty && k == a.unwrap() {
+                                        empty_slice = true;
+                                        b = Some(k);
+                                        continue;
+                                    }
                                     die(&format!("{ctx}: no statement between @@from and the @@to anchor: {to}"));
                                 }
                                 b = Some(k - 1);
@@ -1696,15 +1706,20 @@ fn main() {
                     let a = a.unwrap_or_else(|| die(&format!("{ctx}: @@from anchor not found in the block: {from}")));
                     // `@@to $` = the last statement of the block
                     let b = if d.to.is_none() { a } else if to == "$" { blk.stmts.len() - 1 } else { b.unwrap_or_else(|| die(&format!("{ctx}: @@to anchor not found after @@from: {to}"))) };
-                    ed.before_next_pass(&blk.stmts[a..=b]);
-                    for s in &blk.stmts[a..=b] {
-                        ed.visit_stmt(s);
-                    }
                     let lo = blk.stmts[a].span().byte_range().start;
-                    let hi = blk.stmts[b].span().byte_range().end;
-                    ed.finish_cfg();
-                    check_used(&ed, d, &ctx);
-                    let body = apply_edits(&src.text, lo, hi, &ed.edits, &mut counts).unwrap_or_else(|e| die(&format!("{ctx}: {e}")));
+                    let hi = if empty_slice { lo } else { blk.stmts[b].span().byte_range().end };
+                    let body = if empty_slice {
+                        *counts.entry("empty-slice".into()).or_insert(0) += 1;
+                        "        // vx: EMPTY slice — no statement between the two anchors\n".to_string()
+                    } else {
+                        ed.before_next_pass(&blk.stmts[a..=b]);
+                        for s in &blk.stmts[a..=b] {
+                            ed.visit_stmt(s);
+                        }
+                        ed.finish_cfg();
+                        check_used(&ed, d, &ctx);
+                        apply_edits(&src.text, lo, hi, &ed.edits, &mut counts).unwrap_or_else(|e| die(&format!("{ctx}: {e}")))
+                    };
                     emitted = format!("{}{}\n{}", d.pre, body, d.post);
                     src_range = (lo, hi);
                 } else {
@@ -1856,6 +1871,9 @@ fn main() {
                 }
                 for (a, b) in &d.substs {
                     if !text.contains(a.as_str()) {
+                        if text.contains("vx: EMPTY slice") {
+                            continue;
+                        }
                         die(&format!("{ctx}: @@subst pattern not found: {a}"));
                     }
                     text = text.replace(a.as_str(), b);
